@@ -11,14 +11,14 @@ IMP_NOTE = ('Trusted: Coq kernel; extraction; pgsem; the Go harness. Model Ledge
 
 PROPS['C11'] = dict(
     target='Props/C11',
-    theorems=['C11_roundtrip', 'C11_tx_core_fields', 'C11_av_fields', 'C11_roundtrip_moves', 'C11_roundtrip_accounts_partial', 'C11_roundtrip_tables_partial', 'C11_hashes_roundtrip', 'C11_hash_check_sound', 'C11_writable_single', 'C11_resync_above', 'C11_first_usage_example', 'C11_refuted_updated_at',
+    theorems=['C11_roundtrip', 'C11_roundtrip_schemas', 'C11_tx_core_fields', 'C11_av_fields', 'C11_roundtrip_moves', 'C11_roundtrip_accounts_partial', 'C11_roundtrip_tables_partial', 'C11_hashes_roundtrip', 'C11_hash_check_sound', 'C11_writable_single', 'C11_resync_above', 'C11_first_usage_example', 'C11_refuted_updated_at',
               'C11_writable_atomic', 'C11_atomic_after_import_next_ids', 'C11_atomic_after_import_log_order', 'C11_unrepaired_atomic_writable', 'C11_unrepaired_atomic_log_id'],
-    ties=[dict(name='TIE-D importx', vh='importx', model='importx', n=dict(quick=400, thorough=10000), kinds=['C11'], case_head='importx', timeout=dict(quick=600, thorough=6000))],
+    ties=[dict(name='TIE-D importx', vh='importx', model='importx', n=dict(quick=300, thorough=10000), kinds=['C11'], case_head='importx', timeout=dict(quick=600, thorough=6000))],
     rule=IMP_RULE,
     explanation='PROVED for every feature set, history, hash function and import time (C11_roundtrip, per-log simulation of importLog against Core.step + induction over the history + C09 chain invariant): '
                 'the import of the export into the pristine ledger is accepted, leaves it initializing and reproduces volumes, every column of the transactions table except effective volumes (ids, postings, current metadata, '
                 'timestamps, references, inserted_at, updated_at, reverted_at, post-commit volumes), the transaction metadata history, the logs, the hash column and, of every account row, address, current metadata and insertion date. Under hypotheses: moves table + effective volumes when the history has no dry run or MOVES_HISTORY is off '
-                '(C11_roundtrip_moves; otherwise only moves.seq is renumbered, compared modulo seq by the tie); first usage / updated_at of accounts (the whole accounts table) + account metadata history when the history has no SET/DELETE_METADATA on accounts '
+                '(C11_roundtrip_moves; otherwise only moves.seq is renumbered, compared modulo seq by the tie); first usage / updated_at of accounts (the whole accounts table) + account metadata history when the history has no DELETE_METADATA on accounts (SET_METADATA on accounts is covered since a33853d: importLog replays the upsert of the write path dated at the log) '
                 '(C11_roundtrip_accounts_partial); all tables identical under both (C11_roundtrip_tables_partial). FULL statement REFUTED without the accounts hypothesis, confirmed on the real stack (known_findings.d/import.json): '
                 'SET_METADATA on an account: since the repairs 2a129a1/a33853d the import IS the write dated at the log (ImportSim.imp_acc_set_is_write, C11_first_usage_example); DELETE_METADATA on an account is dated at the import in updated_at and in the metadata history (C11_refuted_updated_at). '
                 'Writability: first committed facade write flips the state and draws log id = max+1 and transaction id = max+1 (C11_writable_single; bulk elements are such writes); the ATOMIC bulk follows the same protocol since the repair fixes/01-facade-begintx (C11_writable_atomic: a one-element atomic bulk IS the facade write). '
@@ -30,7 +30,7 @@ PROPS['C11'] = dict(
 
 PROPS['C12'] = dict(
     target='Props/C12',
-    theorems=['C12_only_pristine', 'C12_after_write_rejected', 'C12_after_bulk_write_rejected', 'C12_monotone', 'C12_import_keeps_state', 'C12_atomic_flips_or_no_effect', 'C12_after_atomic_write_rejected', 'C12_unrepaired_atomic_never_flips', 'C12_unrepaired_atomic_bypass'],
+    theorems=['C12_row_decides', 'C12_coherent', 'C12_only_pristine', 'C12_after_write_rejected', 'C12_after_bulk_write_rejected', 'C12_monotone', 'C12_import_keeps_state', 'C12_atomic_flips_or_no_effect', 'C12_after_atomic_write_rejected', 'C12_unrepaired_atomic_never_flips', 'C12_unrepaired_atomic_bypass'],
     ties=[dict(name='TIE-D importx', vh='importx', model='importx', n=dict(quick=400, thorough=10000), kinds=['C12'], case_head='importx', timeout=dict(quick=600, thorough=6000))],
     rule=IMP_RULE,
     explanation='Sequential part proved for every hash function: accepted => initializing and every stored log id below every imported id (C12_only_pristine); after a committed facade write every import is refused with no effect '
@@ -48,3 +48,17 @@ PROPS['C14']['ties'].append(dict(name='TIE-D importx refs', vh='importx', model=
                                  kinds=['C14'], case_head='importx', timeout=dict(quick=600, thorough=6000)))
 PROPS['C14']['explanation'] += (' Import path (the quantifier includes imports): the importx tie presents Import with NEW_TRANSACTION logs reusing a stored reference; model Ledger/Import.v:imp_commit '
                                 '(IEReference, no effect) = real stack, and the monitor requires the reference-conflict error kind.')
+
+# C11 on ledgers WITH schemas (Ledger/ImportSchema.v): per-log schema resolution of importLog
+PROPS['C11']['ties'].append(dict(name='TIE-D importx schemas', vh='importx', model='importx_schema', n=dict(quick=100, thorough=4000), args=dict(all=['-profile', 'schemas']),
+                                 kinds=['C11'], case_head='importx_schema', timeout=dict(quick=600, thorough=6000)))
+PROPS['C11']['rule'] = IMP_RULE + (' Schemas tie: source histories of the schemahist generator (schema inserts with chart default metadata and templates, writes with a known / unknown / no schema version, '
+                                   'strict 25% / audit 75%) followed in 65% of the cases by a directed tail (a schema giving users:$id a default, a versioned write, then un-versioned and versioned creates / '
+                                   'metadata-only writes on accounts that do not exist yet); export, import into a fresh ledger, 12 flags + schemas / log versions + complete copy compared with Ledger/ImportSchema.v.')
+
+PROPS['C11']['explanation'] += (' LEDGERS WITH SCHEMAS (C11_roundtrip_schemas, Ledger/ImportSchema.v + ImportSchemaProofs.v over the histories of Ledger/SchemaCtrl.v): for every enforcement mode, history of schema inserts '
+                                'and writes under a known / no schema version, and import time, the import of the export is accepted and reproduces the schemas table, the INSERTED_SCHEMA logs, the version stored with every log and the base '
+                                'tables as in C11_roundtrip (accounts with exactly the chart defaults the source gave them); importLog resolves the schema PER LOG (the seeded change N-C11, a stream-wide cached schema, is reported as [c11-schema-account-metadata]).')
+PROPS['C12']['explanation'] += (' The model separates the ledger ROW state from the state CACHED by the facade a request goes through (Import.v: i_l / i_c): handleState and BeginTX branch on the cache, Import on the row re-read under the '
+                                'lock; C12_row_decides / C12_after_write_rejected quantify over the cached value, C12_coherent keeps the cache from running ahead of the row. The tie drives a second, stale facade (resolved before another '
+                                'request\'s first write) through Import with log ids above the stored ones (the seeded change N-C12, which tests the stale snapshot, is reported as [c12-import-after-single-write] / [c12-import-after-bulk-write]).')
